@@ -169,9 +169,11 @@ def make_program(kind, seed, extra=()):
             # also names of ItemSpace parameters: inside an instance the argument shadows the
             # model-level reference (exporter.py:406-432: references are copied first, then
             # the parameters are assigned), in the base space the reference is read
+            # (less often: such a reference also hides a lost parameter, because the value of
+            #  the enclosing instance's attribute is then copied along with the references)
             names += [("p", 20), ("pp", 60), ("q", 30)]
         for nm, v in names:
-            if nm not in defs["grefs"] and rng.random() < 0.75:
+            if nm not in defs["grefs"] and rng.random() < (0.3 if nm in ("p", "pp", "q") else 0.75):
                 defs["grefs"][nm] = {"v": ["int", v, [], ""]}
         if kind == "dyn":
             # the object-valued reference of P is also defined in its child spaces
